@@ -88,6 +88,15 @@ CLAIMS = {
              '(fault plan, atomic batch), the pmtree contract of unit pm_adapter (Err of an in-range mutator = storage failure), SledDB as seen by the adapter (meta_s / flushed_s). '
              'put_batch is bounded (batches of 0 / 1 entries, std HashMap); SledDB::new / new_with_tries is NOT checked (out of reach of CBMC: nested to_string / format!). Known finding: reopen-restores-written-flags is C15.',
         design='DESIGN.md §4 C16'),
+    'C11': dict(
+        text='PARTIAL (per-call relation between the two surfaces). The whole of rln/src/ffi.rs (glue macros, ProcessArg, Buffer conversions, all 30 extern "C" functions) is compiled byte for byte '
+             'against a recording stand-in of the Rust API generated from the signatures of public.rs (callee contract: any Ok/Err, any bytes written, any new context state). For every entry point Kani '
+             'discharges: exactly the corresponding API call, on the given context, with exactly the caller\'s arguments; true iff that call returned Ok; the output Buffer designates exactly the bytes '
+             'the API wrote and they are readable; verdicts agree; seq_atomic_operation starts at the current leaf count; the context is left exactly as the API left it; no crash or invalid pointer use in the glue.',
+        note='Bounded in the DATA only (input buffers <= 6 symbolic bytes with symbolic length, <= 3 bytes written): the glue is loop free and never inspects the bytes. NOT decided: that a failing Rust API call leaves '
+             'the context unchanged (a property of the API bodies, partly under C08 / C06), behaviour for invalid pointers, the stateless / wasm variants, ownership of the leaked output allocation. '
+             'Sequences of calls follow by induction because the glue holds no state of its own.',
+        design='DESIGN.md §4 C11'),
     'C19': dict(
         text='Operator helpers are loop-free / width-bounded: Kani harnesses over full-domain operands are complete proofs of circom semantics, canonical results and no panic.',
         note='Fr helpers run over a canonical-integer model of Fr extracted mechanically each run; mul/inv/pow of ruint and ark-ff are trusted.',
@@ -102,7 +111,6 @@ CLAIMS = {
 NOT_APPLICABLE = {
     'C01': 'End-to-end Groth16 completeness over the bundled 13 MB key and witness graph is a fact about data and pairing arithmetic; no function contract within reach of Verus/Kani states it (function-level pieces are decided under C02/C04/C07/C10).',
     'C05': 'The oracle is an external reference generator (rln.wasm) applied to an 11 940-line data file, not a contract on a function of /repo; determinism/order-independence are decided for every graph under C20.',
-    'C11': 'macro_rules!-generated unsafe raw-pointer FFI glue and a lock-step relation between two API surfaces over call histories: relational two-run property, raw-pointer ownership outside Verus without rewriting, Kani contracts need Arbitrary for *mut RLN.',
     'C17': 'Equality of two parsed key files through two deserialisers and acceptance across separately built feature sets are properties of data files and of several builds, not of one function; the tree half is the C06/C07 corollary.',
     'C18': 'Thread schedules: Kani has no thread support and Verus would require re-expressing rayon/Lazy/sled in its permission types, i.e. a different program.',
 }
